@@ -412,6 +412,7 @@ pub fn jobs(prop: &str, tier: &str) -> Vec<Job> {
             c.serde_replace = true;
             c.finite_only = false;
             c.o_model = true;
+            c.exact_total = true;
             c.n_values = 3;
             c.n_forms = 2;
             let devs: &[(usize, usize, u8)] = if thorough { &[(48, 2, 1)] } else { &[(24, 1, 1)] };
